@@ -207,6 +207,55 @@ def r3_5(ctx, fx):
     ctx.floor(rid, n, 12, "rational denominators assigned from locals")
 
 
+ACCUMULATORS = ("add_mul_assign_r", "sub_mul_assign_r", "add_assign_r", "sub_assign_r")
+
+
+def r3_6(ctx):
+    rid = "R3.6"
+    ctx.rule(rid, "one bound, one direction: a bound that a loop accumulates term by term (add_mul_assign_r / sub_mul_assign_r / x = x +- .. into one destination inside the innermost loop) is rounded in a single direction — the direction belongs to the bound being computed (a lower approximation rounds down throughout, an upper one up throughout), not to the sign of the term; mixed directions give a value that is neither, and with inexact boundaries the refined box loses points that satisfy the constraint")
+    fx = ctx.extract([F.driver_unit("domains.cc", file_re=r"(Box_templates|Box_inlines|BD_Shape_templates|Octagonal_Shape_templates|Interval_templates|Interval_inlines)\.hh")])
+    n = 0
+    seen = set()
+    for f in fx.functions:
+        if not f.flag("pattern") or (f.relfile, f.line) in seen:
+            continue
+        seen.add((f.relfile, f.line))
+        for lp in f.walk():
+            if lp["k"] not in ("for", "while", "do"):
+                continue
+            body = f.deref(lp["c"][-1])
+            if body is None:
+                continue
+            acc = {}
+            for c in f.calls(body):
+                if f.call_name(c) not in ACCUMULATORS:
+                    continue
+                inner = [a for a in f.ancestors(c) if a["k"] in ("for", "while", "do")]
+                if not inner or inner[0]["i"] != lp["i"]:
+                    continue
+                args = f.call_args(c)
+                if len(args) < 3:
+                    continue
+                dest = f.text(args[0]).replace(" ", "")
+                if f.call_name(c) in ("add_assign_r", "sub_assign_r") and dest not in [f.text(a).replace(" ", "") for a in args[1:3]]:
+                    continue
+                d = f.text(args[-1]).replace(" ", "")
+                if not d.startswith("ROUND_"):
+                    continue
+                acc.setdefault(dest, []).append((d, c))
+            for dest, lst in sorted(acc.items()):
+                n += 1
+                inst = "%s accumulates `%s` in the loop at line %s" % (f.name, dest, lp.get("l"))
+                dirs = sorted(set(d for d, _ in lst))
+                if len(dirs) == 1:
+                    ctx.ok(rid, inst, f.where(lp))
+                else:
+                    odd = min(dirs, key=lambda d_: sum(1 for x, _ in lst if x == d_))
+                    c_odd = next(c for d_, c in lst if d_ == odd)
+                    ctx.violation(rid, inst, f.where(c_odd), "`%s` is accumulated with %s (lines %s): the approximation is neither from below nor from above" % (dest, " and ".join(dirs), ", ".join(str(c.get("l")) for _, c in lst)))
+    ctx.floor(rid, n, 50, "bounds accumulated in loops")
+
+
 def run(ctx):
     ctx.explanation = ("C03 rounding discipline on the instantiated weakly-relational domains (double, int32_t, mpz_class; mpq_class in the thorough tier): who may round "
                        "down, where ROUND_NOT_NEEDED may be used, and the encodings it rests on; decides the discipline, not the case analysis of the transformers")
@@ -219,5 +268,6 @@ def run(ctx):
     fxb = ctx.extract([F.driver_unit("domains.cc", file_re=r"(Box|Interval|Boundary|BD_Shape|Octagonal_Shape|DB_Matrix|OR_Matrix)_(templates|inlines|defs)\.hh"),
                        F.driver_unit("shapes_mpq.cc", file_re=r"(BD_Shape|Octagonal_Shape)_(templates|inlines)\.hh")])
     r3_5(ctx, fxb)
+    r3_6(ctx)
     dirty.run(ctx, "R3.4", fxb, lambda f: True, 150,
               "judged on Box<Rational_Interval>, BD_Shape<mpq_class>, Octagonal_Shape<mpq_class> and their matrices (found Box::generalized_affine_preimage multiplying by a never-written temporary)")
